@@ -163,7 +163,23 @@ def run_once(prog: list[dict[str, Any]], prefix: list[int], policy: Any, target:
 
         inj.phase = phase
         try:
-            t = inj.spawn(loop, run_steps(W, prog, None))
+            async def victim_program() -> None:
+                try:
+                    await run_steps(W, prog, None)
+                except asyncio.CancelledError:
+                    # outermost user code of the victim: the cancellation went through every scope on its way out; this task HAS been asked
+                    # to cancel (nobody took the request back), so the context's check still says so
+                    from haiway import ctx
+
+                    try:
+                        ctx.check_cancellation()
+                        out["check_after_delivery"] = "silent"
+                    except asyncio.CancelledError:
+                        out["check_after_delivery"] = "raised"
+                    out["cancelling_after_delivery"] = asyncio.current_task().cancelling()  # type: ignore[union-attr]
+                    raise
+
+            t = inj.spawn(loop, victim_program())
             res = await asyncio.gather(t, return_exceptions=True)
             out["victim"] = "cancelled" if t.cancelled() else ("returned" if t.exception() is None else ("raised", t.exception()))
             del res
@@ -233,6 +249,9 @@ def judge(R: Recorder, prog: list[dict[str, Any]], out: dict[str, Any], k: int, 
     kind = "returned-normally" if victim == "returned" else ("raised-instead" if victim != "cancelled" else "ok")
     R.monitor("victim-cancelled", victim == "cancelled", where={**where, "kind": kind},
               detail=f"cancellation delivered at suspension point {k} (phase {phase}) but the victim {victim!r}; events={W.events}", case=rec)
+    if victim == "cancelled" and "check_after_delivery" in out and not inj.fired_again:
+        R.monitor("check-cancellation", out["check_after_delivery"] == "raised", where={**where, "kind": "check-silent-after-delivered-cancellation"},
+                  detail=f"cancellation delivered at suspension point {k} (phase {phase}) and propagated out of every scope; in the victim's outermost handler ctx.check_cancellation() was {out['check_after_delivery']} (Task.cancelling() == {out.get('cancelling_after_delivery')})", case=rec)
     # children
     released = set(out.get("released_at_injection", []))
     n_ev = out.get("events_at_injection", 0)
